@@ -38,6 +38,11 @@ func c10Queries() []query.Q {
 		&query.Branch{Pattern: "dev"},
 		&query.Substring{Pattern: ".go", FileName: true},
 		&query.And{Children: []query.Q{&query.Branch{Pattern: "HEAD", Exact: true}, &query.Substring{Pattern: "gamma"}}},
+		// non-ASCII trigrams take a different path through the postings builder
+		&query.Substring{Pattern: "日本語"},
+		&query.Substring{Pattern: "αβγδ", CaseSensitive: true},
+		&query.Substring{Pattern: "héllo wörld"},
+		&query.Substring{Pattern: "🙂x"},
 	}
 }
 
@@ -81,8 +86,10 @@ func c10View(dir string) ([]string, error) {
 	return out, nil
 }
 
+var c10TrigramMax = 20000
+
 func c10Opts(dir string, id uint32, name string, branches []string, shardMax, par int) index.Options {
-	o := index.Options{IndexDir: dir, ShardMax: shardMax, Parallelism: par, DisableCTags: true, SizeMax: 1 << 20, TrigramMax: 20000,
+	o := index.Options{IndexDir: dir, ShardMax: shardMax, Parallelism: par, DisableCTags: true, SizeMax: 1 << 20, TrigramMax: c10TrigramMax,
 		RepositoryDescription: zoekt.Repository{ID: id, Name: name}}
 	for _, b := range branches {
 		o.RepositoryDescription.Branches = append(o.RepositoryDescription.Branches, zoekt.RepositoryBranch{Name: b, Version: "v-" + b})
@@ -118,7 +125,9 @@ func runC10(t *testing.T, tp *simrt.Tape, keepTrace bool) hx.Result {
 		return hx.Result{HarnessErr: err.Error()}
 	}
 	defer os.RemoveAll(base)
-	vocab := []string{"needle", "Needle", "alpha", "beta", "gamma", "delta", "func", "return", "zoekt"}
+	vocab := []string{"needle", "Needle", "alpha", "beta", "gamma", "delta", "func", "return", "zoekt", "日本語", "αβγδ", "héllo wörld", "🙂x"}
+	// a small TrigramMax makes "too many trigrams" documents cheap to generate
+	c10TrigramMax = []int{20000, 1000}[tp.Gen(2)]
 	genRepo := func(name string) ([]c10Doc, []string) {
 		branches := []string{"HEAD"}
 		if tp.Gen(2) == 0 {
@@ -143,6 +152,18 @@ func runC10(t *testing.T, tp *simrt.Tape, keepTrace bool) hx.Result {
 			}
 			if tp.Gen(12) == 0 {
 				d.content = "binary\x00content" // skipped document (binary)
+			}
+			switch tp.Gen(10) {
+			case 0:
+				// more distinct trigrams than TrigramMax=1000 allows: skipped with a marker
+				var many strings.Builder
+				for k := 0; k < 700; k++ {
+					fmt.Fprintf(&many, "%c%c%c ", 'a'+k%26, 'A'+(k/26)%26, '0'+(k/7)%10)
+				}
+				d.content = "needle " + many.String() + "\n"
+			case 1, 2:
+				// an ordinary but long document (few distinct trigrams, > TrigramMax bytes)
+				d.content = strings.Repeat(d.content, 1+1200/(len(d.content)+1))
 			}
 			docs = append(docs, d)
 		}
